@@ -154,6 +154,7 @@ def run(m: Model, r: Report, tier: str) -> None:
                 "loop starves the event loop (no timeout, no connection error, no reconnect)", loc=rd_.loc)
     if n_rd < 3:
         raise AnalysisError("stream transport read() functions not found")
+    tr.line_needs_delimiter(m, r, "R1")
     from sa.uds_rules import reconnect_unsafe_rule
     reconnect_unsafe_rule(m, r, "R5")
     ru = m.require_function(f"{CLIENT}.UDSClient.reconnect_unsafe")
